@@ -179,7 +179,13 @@ Definition run_dpanic (kind n k : N) : list N :=
        drop glue and is not Copy: exactly one Clone call, the copy is the Clone's result, the other owner's value is
        untouched by a write through the result and it is the only owner left *)
     (if (kind <? 28) && (n =? 0) && (k =? 0) then [0; SEP; SEP; 1; 1; 1; 1] else [98]) else
-  if 20 <=? kind then (if (n =? 0) && (k =? 0) then [0; SEP; 0; SEP; 1; 1] else [98]) else
+  if 20 <=? kind then
+    (if (n =? 0) && (k =? 0) then [0; SEP; 0; SEP; 1; 1] else
+     (* [k = 1] (make_mut, make_unique, OffsetArc::make_mut): the old value's destructor panics when the operation
+        releases the old handle, which has become the last one.  The assignment still installs the fresh copy (and
+        OffsetArc::make_mut writes it back on the unwind path), so the handle owns it: the original is destroyed once,
+        its block returned once, the panic propagates, and the fresh copy (token 1) goes with the handle *)
+     if (n =? 0) && (k =? 1) && (20 <? kind) then [1; SEP; 0; 1; SEP; 1; 0] else [98]) else
   if 16 <? n then [99] else
   match dpanic_toks kind (N.to_nat n) with
   | None => [98]
